@@ -258,10 +258,31 @@ static int parse(hcl *h) {
   }
 }
 
+/* run the event loop until the server has nothing more to read and writes nothing more.  Unlike
+   vh_pump this does not look at rfbProcessEvents' return value: a client whose requested and modified
+   regions are both non-empty but disjoint makes rfbUpdateClient report "busy" on every call although
+   nothing is sent (vh_pump would spin through its whole iteration budget, ~1 s per op). */
+static void c17_pump(vh_conn **cs, int nc) {
+  int idle = 0, iter = 0;
+  while (idle < 3 && iter < 100000) {
+    int i, busy = 0;
+    rfbProcessEvents(scr, 0);
+    for (i = 0; i < nc; i++) {
+      size_t before;
+      if (!cs[i]) continue;
+      before = cs[i]->out.n;
+      vh_drain(cs[i]);
+      if (cs[i]->out.n != before) busy = 1;
+      if (cs[i]->cl && cs[i]->cl->sock != RFB_INVALID_SOCKET && vh_srv_pending(cs[i]->cl->sock) > 0) busy = 1;
+    }
+    idle = busy ? 0 : idle + 1; iter++;
+  }
+}
+
 static void pump_all(void) {
   vh_conn *arr[MAXC]; int i, n = 0;
   for (i = 0; i < MAXC; i++) if (cls[i].used && cls[i].live) arr[n++] = &cls[i].c;
-  vh_pump(scr, arr, n);
+  c17_pump(arr, n);
   for (i = 0; i < MAXC; i++) if (cls[i].used && cls[i].live) {
     hcl *h = &cls[i];
     if (parse(h) == 0 && h->c.out.n > 0)      /* the server is idle: nothing more will arrive */
@@ -360,7 +381,7 @@ int main(void) {
       if (!h->c.cl || h->c.cl->sock == RFB_INVALID_SOCKET) {
         printf("closed %d\n", i);
         h->live = 0;
-        { vh_conn *arr[1]; arr[0] = &h->c; vh_pump(scr, arr, 1); }
+        { vh_conn *arr[1]; arr[0] = &h->c; c17_pump(arr, 1); }
       } else if (h->told == 1) printf("told %d u %d %d\n", i, h->tw[0], h->tw[1]);
       else if (h->told == 2) printf("told %d p %d %d %d %d\n", i, h->tw[0], h->tw[1], h->tw[2], h->tw[3]);
       else printf("told %d none\n", i);
